@@ -255,6 +255,13 @@ def run(ctx):
         ctx.check(good, "L4", "DynSizedStructure::payload", "DynSizedStructure::payload() exposes exactly the tail field (field 1)",
                   A.site(), how=G.show(rt), why=G.show(rt))
     palette_extent(ctx, F)
+    # two kinds expose their variable-length part element by element through an iterator rather than as a slice (EFI memory
+    # descriptors, ELF section headers): that every element handed out lies inside the part is the cursor lemma of C18 / C19
+    # (including "no other Iterator method is overridden").  Not when this run is itself an import (C18 / C19 import C05's
+    # premises for their own kind).
+    if not getattr(ctx, "_imported", False):
+        ctx.import_prop("C18")
+        ctx.import_prop("C19")
     return ctx.finish(
         "other",
         "For every dynamically sized kind of both crates (and every header instantiation of the generic structure): the "
